@@ -107,7 +107,8 @@ Definition eval_defined (c : kcase) : bool := in_model (orig_result c).
 Definition eval_ok (c : kcase) : bool :=
   negb (in_model (orig_result c)) || str_eqb (show_result (orig_result c)) (k_obs c).
 Definition eval_after_ok (c : kcase) : bool :=
-  has_juxt (apply_kernel (k_kernel c) (k_expr c)) || negb (in_model (after_result c)) || str_eqb (show_result (after_result c)) (k_obs_after c).
+  has_juxt (apply_kernel (k_kernel c) (k_expr c)) || negb (wf (apply_kernel (k_kernel c) (k_expr c))) ||
+  negb (in_model (after_result c)) || str_eqb (show_result (after_result c)) (k_obs_after c).
 (** the parser model on the input: fully parenthesised input parses to itself *)
 Definition norm_input_ok (c : kcase) : bool := expr_eqb (norm (k_expr c)) (allpar (k_expr c)).
 (** rewrite model vs real codemod: same parse tree *)
@@ -123,6 +124,7 @@ Definition changed (c : kcase) : bool := negb (expr_eqb (apply_kernel (k_kernel 
 (** well-formedness model: wf output must parse (the harness checks the converse direction: k_after = None => not wf) *)
 Definition wf_after (c : kcase) : bool := wf (apply_kernel (k_kernel c) (k_expr c)).
 Definition wf_input (c : kcase) : bool := wf (k_expr c).
+Definition juxt_after (c : kcase) : bool := has_juxt (apply_kernel (k_kernel c) (k_expr c)).
 
 (** the guard of the C08 theorem of the case's kernel holds (so the theorem promises equal observations) *)
 Definition guard_holds (c : kcase) : bool := kernel_guard (k_kernel c) (k_env c) (k_expr c).
@@ -131,3 +133,16 @@ Definition theorem_instance_ok (c : kcase) : bool :=
   negb (guard_holds c) || str_eqb (show_result (orig_result c)) (show_result (after_result c)).
 (** finding classes (complements of the guards), one checker per class: true = the case is in the class *)
 Definition in_class (n : N) (c : kcase) : bool := existsb (N.eqb n) (finding_classes (k_kernel c) (k_env c) (k_expr c)).
+
+(** parser model on arbitrarily parenthesised trees: (expression, text printed by the harness, tree CPython parsed or None) *)
+Definition pcase := (expr * str * option expr)%type.
+Definition p_pp_ok (c : pcase) : bool := let '(e, t, _) := c in str_eqb (pp e) t.
+Definition p_norm_ok (c : pcase) : bool :=
+  let '(e, _, parsed) := c in
+  match parsed with
+  | Some t => expr_eqb (norm e) t
+  | None => negb (wf e)                  (* CPython rejects the text: the tree must not be well-formed *)
+  end.
+(** wf is allowed to be conservative only where the text is outside MiniPy; here every text comes from a MiniPy tree *)
+Definition p_wf_complete (c : pcase) : bool :=
+  let '(e, _, parsed) := c in match parsed with Some _ => wf e | None => true end.
